@@ -73,7 +73,7 @@ def gen_spec(kind, seed):
         commits.append({"session": f"sess-{seed}-{k}" if rnd.random() < 0.8 else f"sess-{seed}-1", "edits": edits})
     return {"kind": kind, "seed": seed, "tracked": tracked, "commits": commits,
             "human_mid": kind == "cp-list-skip" or (kind in ("rebase-clean", "cp-range") and rnd.random() < 0.2),
-            "base_len": rnd.randint(7, 10), "drop_note": rnd.randrange(ncommits)}
+            "base_len": rnd.randint(7, 10), "drop_note": rnd.randrange(ncommits), "tool_input": rnd.random() < 0.35}
 
 
 FIXED = {
@@ -88,6 +88,10 @@ FIXED = {
                           "human_mid": False, "drop_note": 0,
                           "commits": [{"session": "s1", "edits": [("f1.txt", [("insert", 0.0, 2)])]},
                                       {"session": "s2", "edits": [("f1.txt", [("overwrite", 0.99, 1)])]}]},
+    # the prompt record holds a tool call whose input has a "base_commit_sha" key (a later occurrence)
+    "tool-input-field": {"kind": "rebase-clean", "seed": "tif", "tracked": ["f1.txt"], "base_len": 5, "human_mid": False,
+                         "drop_note": 0, "tool_input": True,
+                         "commits": [{"session": "s1", "edits": [("f1.txt", [("insert", 0.5, 1)])]}]},
     # fixed in /repo c69ae45b: a tracked path containing the field name
     "field-name-path": {"kind": "rebase-clean", "seed": "fnp", "tracked": ['k"base_commit_sha":"v".txt'], "base_len": 5,
                         "human_mid": False, "drop_note": 0,
@@ -228,7 +232,8 @@ def run_scenario(spec):
     """Build the history, snapshot, run the operation in both twins, observe. Returns a dict of
     observations (no verdicts)."""
     kind = spec["kind"]
-    obs = {"spec": {"kind": kind, "seed": spec["seed"], "fixed": spec.get("fixed")}, "ok": False}
+    obs = {"spec": {"kind": kind, "seed": spec["seed"], "fixed": spec.get("fixed")}, "ok": False,
+           "tool_input": bool(spec.get("tool_input"))}
     with e2e.Env() as env:
         env.clock = CLOCK0
         r = env.repo("a")
@@ -254,7 +259,13 @@ def run_scenario(spec):
             for (f, ops) in c["edits"]:
                 tree[f] = apply_ops(tree[f], ops, c["session"], k, f"k{k}")
                 r.write(f, content(tree[f])); files.append(f)
-            rc, _, err = r.ai_checkpoint(c["session"], files)
+            transcript = None
+            if spec.get("tool_input"):
+                # a later, unescaped occurrence of the field name inside the prompt record
+                transcript = {"messages": [{"type": "user", "text": "rebase it"},
+                                           {"type": "tool_use", "name": "git_rebase",
+                                            "input": {"base_commit_sha": f"abc{k}", "opts": {"base_commit_sha": "nested"}}}]}
+            rc, _, err = r.ai_checkpoint(c["session"], files, transcript=transcript)
             if rc != 0:
                 obs["error"] = f"checkpoint failed: {err[-300:]}"; return obs
             sha = r.commit(f"c{k}")
@@ -389,7 +400,7 @@ def judge(res, obs, driver_reqs):
     mark = MARK_REBASE if rebase else MARK_CP
     took = mark in fast["markers"]
     tags = [f"e2e:{kind}", f"e2e:path={'shortcut' if took else 'replay'}", f"e2e:commits={len(obs['origs'])}",
-            f"e2e:tracked={len(obs['tracked'])}"]
+            f"e2e:tracked={len(obs['tracked'])}", f"e2e:tool-input-field={bool(obs.get('tool_input'))}"]
     wit = {"spec": spec, "pairs": obs["pairs"], "tracked": obs["tracked"], "differing": obs["differing"],
            "missing_note": obs["missing_note"], "markers": fast["markers"]}
     if fast["rc"] != 0 or slow["rc"] != 0 or fast["rc"] != slow["rc"]:
